@@ -15,7 +15,10 @@ Inductive base :=
 | BNd             (* a user enum WITHOUT Debug *)
 | BOpt            (* Option<i32> *)
 | BGen            (* a generic parameter T with no Debug bound (whatever it is instantiated with) *)
-| BGenD.          (* a generic parameter U: Debug *)
+| BGenD           (* a generic parameter U: Debug *)
+| BImp.           (* the WHOLE parameter type `&mut L<'a>` (a unique borrow of a type with a lifetime parameter): the macro's
+                     MutImpossible class (method.rs classify_arg) -- the Inputs component is `unimock::Impossible`, so the
+                     identifier debug_inputs binds has type `&Impossible`, whatever the caller passed *)
 
 Inductive pty :=
 | TB (b : base)
@@ -93,6 +96,7 @@ Fixpoint collect_derefs (t : pty) : list deref_op * inner_kind :=
     | KSliceInner => (ops, KSliceInner)
     end
   | TSlice _ => ([], KSliceInner)
+  | TB BImp => ([OpRefDeref], KOther)     (* the derefs are collected from the DECLARED type `&mut L<'a>` *)
   | TB _ => ([], KOther)
   end.
 
@@ -159,7 +163,11 @@ Definition arg_resolution (t : pty) : resolution :=
   | None => RNoMethod
   end.
 
-Definition try_debug (t : pty) (v : value) : option string := res_text (arg_resolution t) v.
+(* what the Inputs component holds: the caller's value, or the Impossible placeholder *)
+Definition input_value (t : pty) (v : value) : value :=
+  match t with TB BImp => VCon "Impossible" [] | _ => v end.
+
+Definition try_debug (t : pty) (v : value) : option string := res_text (arg_resolution t) (input_value t v).
 
 (* the boxed array literal `[e1, ..., en]`: one entry per non-receiver parameter, in
    declaration order; methods without parameters use MockFn::debug_inputs' default (empty) *)
